@@ -107,12 +107,31 @@ def run(res: C.Result, deep: bool):
     for cls, style, sub in _cases(res.seed, deep):
         cid = f"s{n}"
         n += 1
-        m = SC.build(W, cls, random.Random(sub), style)
-        blk = SC.run_case(cid, cls, m)
+        def trouble(what: str, blk=()):
+            """the code under test raised where the unchanged code never does: a correspondence difference with the case as
+            replay (never a crash of the harness)"""
+            ex["harness_trouble"] = ex.get("harness_trouble", 0) + 1
+            if ex["harness_trouble"] <= 20:
+                res.corr_diffs.append({"name": "corr:M5/build", "diff": what[:400],
+                                       "case": {"class": cls.__name__, "style": style, "subseed": sub, "timecode": False,
+                                                "protocol": [l if len(l) < 400 else l[:400] + "..." for l in blk]}})
+        try:
+            m = SC.build(W, cls, random.Random(sub), style)
+        except Exception as e:  # noqa: BLE001  an in-domain value was refused by the validated field API
+            trouble(f"building a {cls.__name__} (style {style}) through the validated field API raised {type(e).__name__}: {e}")
+            res.note_case((cls.__name__, style, sub), nontrivial=False)
+            continue
+        info: Dict[str, Any] = {}
+        blk = SC.run_case(cid, cls, m, info)
+        if info.get("trouble"):
+            trouble(info["trouble"], blk)
         lines += blk
         meta[cid] = (cls.__name__, style, sub, blk)
-        if any(l.startswith("HDESC ") for l in blk) and style in ("default", "rnd"):
-            tblk = SC.run_timecode_case(cid + "tc", cls, m)
+        if SC.is_registered_message(cls, m) and style in ("default", "rnd"):
+            info = {}
+            tblk = SC.run_timecode_case(cid + "tc", cls, m, info)
+            if info.get("trouble"):
+                trouble(info["trouble"], tblk)
             lines += tblk
             meta[cid + "tc"] = (cls.__name__, style, sub, tblk)
             ex.setdefault("timecode_header_cases", 0)
@@ -172,9 +191,16 @@ def replay(body: Dict[str, Any]) -> int:
     if cls is None:
         print("class not found:", case["class"])
         return 2
-    m = SC.build(W, cls, random.Random(case["subseed"]), case["style"])
-    blk = SC.run_timecode_case("replay", cls, m) if case.get("timecode") else SC.run_case("replay", cls, m)
+    try:
+        m = SC.build(W, cls, random.Random(case["subseed"]), case["style"])
+    except Exception as e:  # noqa: BLE001
+        print(f"building the message through the validated field API raised {type(e).__name__}: {e}")
+        return 1
+    info: Dict[str, Any] = {}
+    blk = SC.run_timecode_case("replay", cls, m, info) if case.get("timecode") else SC.run_case("replay", cls, m, info)
+    if info.get("trouble"):
+        print(info["trouble"])
     out = C.run_driver("serial", blk)
     print("\n".join(l[:300] for l in blk))
     print("\n".join(out))
-    return 1 if any(" fail" in o or "CORR diff" in o for o in out) else 0
+    return 1 if info.get("trouble") or any(" fail" in o or "CORR diff" in o for o in out) else 0
